@@ -103,6 +103,8 @@ E2 == E1
       \cup Bin(Paren(Bin({<<V1>>, <<V3>>, <<N1>>}, {L(" + ", 3), L(" - ", 3)}, {<<V1>>, <<N1>>})),
                 {L(" * ", 3), L(" & ", 3), L(" - ", 3), L(" + ", 3), L(" / ", 3), L(" % ", 3)}, {<<V1>>, <<V3>>, <<N1>>})
       \cup Index2
+      \cup Bin({<<V1, L("++", 2)>>, <<V3, L("--", 2)>>, <<L("(", 1), L("*", 1), V3, L(")", 1), L("++", 2)>>, <<V3, L("[", 1), V1, L("]", 1), L("--", 2)>>},
+                {L(" * ", 3), L(" & ", 3), L(" - ", 3), L(" + ", 3)}, {<<V1>>, <<N1>>})      \* a postfix ++/-- ends a value
 (* level 2: three operands, parenthesised sub-expressions on either side *)
 E3(dummy) == E2          \* parametrised so that TLC does not build the big table at start-up unless it is used
       \cup Bin(Bin(E1small, BinOps, {<<V1>>, <<N1>>}), {L(" + ", 3), L(" * ", 3), L(" && ", 4), L(" || ", 4), L(" == ", 4), L(" & ", 3)}, E1small)
